@@ -32,6 +32,7 @@ func runC15(c *Ctx) {
 	c15Convert(c)
 	c15Keys(c)
 	c15Next(c)
+	c15CleanRenderBuffers(c)
 }
 
 func c15Loop(c *Ctx) {
@@ -913,4 +914,198 @@ func c15Next(c *Ctx) {
 		ok := ni != nil && loopHeaderOf(ni.Block()) == nil
 		c.Check(ok, "O15.5", fk(fn)+":one-iterator-per-scenario", fn.Pos(), "the [next] counters are created once per scenario (outside the step loop) and shared by all its steps and instances")
 	}
+}
+
+// ---- O15.8: every part is rendered into an empty buffer
+
+// mayDirty computes, for one buffer object (identified by pred on the receiver / argument values), the instructions
+// before which the buffer may hold earlier output: a forward may-analysis over the CFG with dirty=true after a write
+// event and dirty=false after Reset. entryDirty is the state at function entry.
+func mayDirty(fn *ssa.Function, isBuf func(ssa.Value) bool, entryDirty bool) (before map[ssa.Instruction]bool, atExit map[*ssa.BasicBlock]bool) {
+	event := func(in ssa.Instruction) (write, reset bool) {
+		cc := CC(in)
+		if cc == nil {
+			return false, false
+		}
+		if _, isDefer := in.(*ssa.Defer); isDefer {
+			return false, false
+		}
+		recvIsBuf := false
+		args := cc.Args
+		if cc.IsInvoke() {
+			recvIsBuf = isBuf(cc.Value)
+		} else if f := CalleeObj(cc); f != nil && RecvTypeName(f) != "" && len(args) > 0 {
+			recvIsBuf = isBuf(args[0])
+			args = args[1:]
+		}
+		name := ""
+		if f := CalleeObj(cc); f != nil {
+			name = f.Name()
+		}
+		if recvIsBuf {
+			switch name {
+			case "Reset", "Truncate":
+				return false, true
+			case "String", "Bytes", "Len", "Cap", "Available":
+				return false, false
+			}
+			return true, false
+		}
+		for _, a := range args {
+			if isBuf(a) {
+				if name == "Put" {
+					return false, false
+				}
+				return true, false // handed to a callee that may write into it (tmpl.Execute(buf, data))
+			}
+		}
+		return false, false
+	}
+	in := map[*ssa.BasicBlock]bool{}
+	out := map[*ssa.BasicBlock]bool{}
+	if len(fn.Blocks) == 0 {
+		return nil, nil
+	}
+	transfer := func(b *ssa.BasicBlock, d bool) bool {
+		for _, i := range b.Instrs {
+			w, r := event(i)
+			if w {
+				d = true
+			}
+			if r {
+				d = false
+			}
+		}
+		return d
+	}
+	in[fn.Blocks[0]] = entryDirty
+	for changed := true; changed; {
+		changed = false
+		for _, b := range fn.Blocks {
+			d := in[b]
+			if b == fn.Blocks[0] {
+				d = entryDirty
+			}
+			for _, p := range b.Preds {
+				d = d || out[p]
+			}
+			o := transfer(b, d)
+			if d != in[b] || o != out[b] {
+				in[b], out[b] = d, o
+				changed = true
+			}
+		}
+	}
+	before = map[ssa.Instruction]bool{}
+	atExit = map[*ssa.BasicBlock]bool{}
+	for _, b := range fn.Blocks {
+		d := in[b]
+		for _, i := range b.Instrs {
+			before[i] = d
+			w, r := event(i)
+			if w {
+				d = true
+			}
+			if r {
+				d = false
+			}
+		}
+		if ExitOf(b) != ExitNone {
+			atExit[b] = d
+		}
+	}
+	return
+}
+
+func c15CleanRenderBuffers(c *Ctx) {
+	c.Rule("O15.8", "every part is rendered from the shot's variables alone: the writer a template is executed into is empty at that moment - a buffer made in this call, or one taken from a sync.Pool that only ever receives reset buffers; on every path a Reset lies between two executions into the same buffer, and a pooled buffer is reset on every path to its Put (a failed Execute leaves its partial output behind, which the next shot would send as the start of its URI)")
+	P := c.P
+	sExec := []Spec{{"text/template", "Template", "Execute"}, {"html/template", "Template", "Execute"}}
+	sPoolGet := Spec{"sync", "Pool", "Get"}
+	sPoolPut := Spec{"sync", "Pool", "Put"}
+	n := 0
+	for _, fn := range P.ProdFuncs() {
+		execs := Calls(fn, sExec...)
+		if len(execs) == 0 {
+			continue
+		}
+		// the distinct writers
+		seen := map[ssa.Value]bool{}
+		for _, ex := range execs {
+			w := CC(ex).Args[1]
+			roots := Roots(w, false)
+			if len(roots) != 1 || seen[roots[0]] {
+				if len(roots) != 1 {
+					n++
+					c.Bad("O15.8", fk(fn)+":writer-is-one-buffer", ex.Pos(), "the writer of template.Execute may be one of several objects; the rule follows one buffer")
+				}
+				continue
+			}
+			root := roots[0]
+			seen[root] = true
+			n++
+			isBuf := func(v ssa.Value) bool {
+				rs := Roots(v, false)
+				return len(rs) == 1 && rs[0] == root
+			}
+			pooled, fresh := false, false
+			switch x := root.(type) {
+			case *ssa.Alloc:
+				fresh = true
+			case *ssa.Call:
+				pooled = MatchCC(&x.Call, sPoolGet)
+			case *ssa.Extract:
+				if cl, ok := x.Tuple.(*ssa.Call); ok {
+					pooled = MatchCC(&cl.Call, sPoolGet)
+				}
+			}
+			if _, isTA := root.(*ssa.TypeAssert); isTA {
+				if cl, _ := CallOfValue(root.(*ssa.TypeAssert).X); cl != nil {
+					pooled = MatchCC(&cl.Call, sPoolGet)
+				}
+			}
+			key := fk(fn) + ":" + strings.TrimPrefix(types.TypeString(root.Type(), nil), "*")
+			if !fresh && !pooled {
+				// a buffer that outlives the call (field, parameter, global): its state at entry is unknown
+				before, _ := mayDirty(fn, isBuf, true)
+				bad := ""
+				for _, ex2 := range execs {
+					if isBuf(CC(ex2).Args[1]) && before[ex2] {
+						bad = P.Pos(ex2.Pos())
+					}
+				}
+				c.Check(bad == "", "O15.8", key+":reset-before-every-render", ex.Pos(), "the buffer is neither made in this call nor taken from a pool: a Reset must precede every Execute; dirty at "+bad)
+				continue
+			}
+			before, atExit := mayDirty(fn, isBuf, false)
+			bad := ""
+			for _, ex2 := range execs {
+				if isBuf(CC(ex2).Args[1]) && before[ex2] {
+					bad = P.Pos(ex2.Pos())
+				}
+			}
+			c.Check(bad == "", "O15.8", key+":empty-at-every-render", ex.Pos(), "a Reset lies between two executions into the same buffer on every path; may hold earlier output at "+bad)
+			if pooled {
+				// every Put of this buffer: direct -> clean before it; deferred -> clean at every exit after the defer
+				badPut := ""
+				EachInstr(fn, func(in ssa.Instruction) {
+					cc := CC(in)
+					if cc == nil || !MatchCC(cc, sPoolPut) || !isBuf(cc.Args[len(cc.Args)-1]) {
+						return
+					}
+					if _, isDefer := in.(*ssa.Defer); isDefer {
+						for b, d := range atExit {
+							if d && (BlockCanReach(in.Block(), b) || in.Block() == b) {
+								badPut = "deferred Put with the buffer possibly dirty at the exit " + P.Pos(b.Instrs[len(b.Instrs)-1].Pos())
+							}
+						}
+					} else if before[in] {
+						badPut = "Put of a possibly dirty buffer at " + P.Pos(in.Pos())
+					}
+				})
+				c.Check(badPut == "", "O15.8", key+":pooled-buffer-is-put-back-empty", ex.Pos(), "the pool only ever receives reset buffers (the next Get relies on it); "+badPut)
+			}
+		}
+	}
+	c.Floor("O15.8", "render buffers of template executions", n, 3)
 }
